@@ -32,7 +32,7 @@ Definition plain_def (recurse : N -> N -> vstate -> result (bool * vstate))
   | TDVariant va, TDVariant vb =>
       if negb (Nat.eqb (List.length va) (List.length vb)) then Ok (false, st)
       else all2 (fun x y st =>
-                   if String.eqb (v_name x) (v_name y)
+                   if String.eqb (v_name x) (v_name y) && N.eqb (v_index x) (v_index y)
                    then plain_fields_equal recurse (v_fields x) (v_fields y) st
                    else Ok (false, st)) va vb st
   | TDSequence x, TDSequence y => recurse x y st
@@ -96,8 +96,8 @@ Definition no_params_reachable (r : registry) (a : N) : Prop :=
   forall x t, In x (unfold_ids r (plain_fuel r) a) -> resolve r x = Some t -> param_ids t = [].
 
 (** the part of a shape that [types_equal] compares: the [Box] flag of a field (read off the
-    recorded type name, which the comparison ignores outside generics) and the variant indices
-    (which it never compares) are forgotten *)
+    recorded type name, which the comparison ignores outside generics) is forgotten.  Variant
+    indices are kept: since the F19 repair they are compared. *)
 Fixpoint shape_core (x : shape) : shape :=
   match x with
   | SPrim p => SPrim p
@@ -109,8 +109,8 @@ Fixpoint shape_core (x : shape) : shape :=
   | SStruct fs => SStruct (map (fun f : fshape => let '(n, _, y) := f in (n, false, shape_core y)) fs)
   | SEnum vs =>
       SEnum (map (fun v : string * N * list fshape =>
-                    let '(n, _, fs) := v in
-                    (n, 0%N, map (fun f : fshape => let '(m, _, y) := f in (m, false, shape_core y)) fs)) vs)
+                    let '(n, i, fs) := v in
+                    (n, i, map (fun f : fshape => let '(m, _, y) := f in (m, false, shape_core y)) fs)) vs)
   | SOpaque h args => SOpaque h (map shape_core args)
   | SCut => SCut
   end.
@@ -167,14 +167,14 @@ Definition revisit_reg : registry :=
     (5%N, mk_ty ["b"; "Y"] [] (TDComposite [fld 7%N]) []);
     (6%N, prim_ty PU8); (7%N, prim_ty PU16) ].
 
-(** inside the plain class: variant indices are never compared (E { A = 0, B = 1 } against
-    E { A = 1, B = 0 }) ... *)
+(** regression witness of finding F19 (repaired): before the repair variant indices were never
+    compared and E { A = 0, B = 1 } was judged equal to E { A = 1, B = 0 } *)
 Definition index_reg : registry :=
   [ (0%N, mk_ty ["a"; "E"] [] (TDVariant [mk_variant "A" [] 0 []; mk_variant "B" [fld 2%N] 1 []]) []);
     (1%N, mk_ty ["a"; "E"] [] (TDVariant [mk_variant "A" [] 1 []; mk_variant "B" [fld 2%N] 0 []]) []);
     (2%N, prim_ty PU8) ].
 
-(** ... and recorded type names are ignored outside generics (S { x: Box<u8> } against S { x: u8 }) *)
+(** inside the plain class recorded type names are ignored (S { x: Box<u8> } against S { x: u8 }) *)
 Definition boxed_reg : registry :=
   [ (0%N, mk_ty ["a"; "S"] [] (TDComposite [fldn "x" 2%N (Some "Box<u8>")]) []);
     (1%N, mk_ty ["a"; "S"] [] (TDComposite [fldn "x" 3%N (Some "u8")]) []);
